@@ -113,6 +113,45 @@ pub enum Base {
     /// an intermediate chunk: one LDM record (size prefix + bzip2 of a message stream)
     RecordChunk(Vec<MsgSpec>),
     Raw(Vec<u8>),
+    /// a container whose records are all CRC-correct bzip2 streams, but of *chosen plaintexts* (damage at the
+    /// content level rather than the container level); with or without a volume header
+    Crafted { volume_header: bool, payloads: Vec<Payload> },
+}
+
+#[derive(Clone, Debug, Serialize, Deserialize)]
+pub enum Payload {
+    /// arbitrary bytes (not a message stream)
+    Bytes(Vec<u8>),
+    /// a plaintext that itself looks like a compressed record: 4 arbitrary bytes, "BZ", then arbitrary bytes
+    FakeMagic([u8; 4], Vec<u8>),
+    /// a plaintext that IS an LDM record (size prefix + bzip2 of a message stream): a doubly wrapped record
+    Nested(Vec<MsgSpec>),
+    /// a valid message stream
+    Stream(Vec<MsgSpec>),
+    /// a valid message stream cut at a scaled position
+    CutStream(Vec<MsgSpec>, u16),
+}
+
+impl Payload {
+    pub fn bytes(&self) -> Vec<u8> {
+        match self {
+            Payload::Bytes(b) => b.clone(),
+            Payload::FakeMagic(p, rest) => {
+                let mut v = p.to_vec();
+                v.extend_from_slice(b"BZ");
+                v.extend_from_slice(rest);
+                v
+            }
+            Payload::Nested(msgs) => encode_record(&bzip2_compress(&encode_stream(msgs).0, 9), false),
+            Payload::Stream(msgs) => encode_stream(msgs).0,
+            Payload::CutStream(msgs, at) => {
+                let mut v = encode_stream(msgs).0;
+                let k = (*at as usize * (v.len() + 1)) >> 16;
+                v.truncate(k);
+                v
+            }
+        }
+    }
 }
 
 #[derive(Clone, Debug, Serialize, Deserialize)]
@@ -153,6 +192,16 @@ pub fn base_bytes(b: &Base) -> (Vec<u8>, usize) {
         Base::Volume(v) => (c01::build_file(v).0, 24),
         Base::RecordChunk(msgs) => (encode_record(&bzip2_compress(&encode_stream(msgs).0, 9), false), 0),
         Base::Raw(v) => (v.clone(), 24),
+        Base::Crafted { volume_header, payloads } => {
+            let mut out = Vec::new();
+            if *volume_header {
+                out.extend_from_slice(&VolHeaderSpec { tape: *b"AR2V0006.", ext: *b"321", date: 20_001, time: 2000, icao: *b"KCRI" }.encode());
+            }
+            for (i, p) in payloads.iter().enumerate() {
+                out.extend_from_slice(&encode_record(&bzip2_compress(&p.bytes(), 1 + (i % 9) as u32), i % 3 == 2));
+            }
+            (out, if *volume_header { 24 } else { 0 })
+        }
     }
 }
 
@@ -246,14 +295,34 @@ fn op_strategy() -> impl Strategy<Value = Op> {
     ]
 }
 
+fn payload_strategy() -> impl Strategy<Value = Payload> {
+    let opts = DrdOpts { small: true, ..DrdOpts::framing() };
+    prop_oneof![
+        2 => prop_oneof![Just(Vec::new()), vec(any::<u8>(), 1..=5), vec(any::<u8>(), 6..=40), vec(any::<u8>(), 2400..=2500)].prop_map(Payload::Bytes),
+        3 => (any::<[u8; 4]>(), prop_oneof![Just(Vec::new()), vec(any::<u8>(), 1..=40), Just(b"h91AY&SY".to_vec())]).prop_map(|(p, r)| Payload::FakeMagic(p, r)),
+        2 => vec(gen::msg(opts), 0..=2).prop_map(Payload::Nested),
+        2 => vec(gen::msg(opts), 0..=2).prop_map(Payload::Stream),
+        2 => (vec(gen::msg(opts), 1..=2), any::<u16>()).prop_map(|(m, at)| Payload::CutStream(m, at)),
+    ]
+}
+
+pub fn crafted_base() -> impl Strategy<Value = Base> {
+    (prop_oneof![3 => Just(true), 1 => Just(false)], vec(payload_strategy(), 1..=3)).prop_map(|(volume_header, payloads)| Base::Crafted { volume_header, payloads })
+}
+
 fn case_strategy() -> impl Strategy<Value = Case> {
     let opts = DrdOpts { small: true, ..DrdOpts::framing() };
     let base = prop_oneof![
         5 => small_volume().prop_map(|v| Base::Volume(Box::new(v))),
         3 => vec(gen::msg(opts), 0..=3).prop_map(Base::RecordChunk),
         2 => vec(any::<u8>(), 0..=300).prop_map(Base::Raw),
+        3 => crafted_base(),
     ];
-    (base, vec(op_strategy(), 0..=4)).prop_map(|(base, ops)| Case { base, ops })
+    // crafted containers are mostly left undamaged: the point is the plaintext
+    (base, vec(op_strategy(), 0..=4), any::<bool>()).prop_map(|(base, ops, keep)| {
+        let ops = if matches!(base, Base::Crafted { .. }) && keep { Vec::new() } else { ops };
+        Case { base, ops }
+    })
 }
 
 fn length_band(n: usize) -> &'static str {
@@ -372,23 +441,26 @@ pub fn run(ctx: &Ctx, rep: &mut Report) {
     // (c)+(d) corruption of valid containers and random bytes
     rep.prop(
         "corrupted-containers",
-        "proptest: base = small valid volume | intermediate chunk (prefix + bzip2(message stream)) | up to 300 random bytes, then 0..4 operators {truncate, size-prefix corruption (0, 1, remainder-1/+0/+1, i32::MAX, i32::MIN, -1, size+-1), bit flip / byte set inside a compressed body, bit flip anywhere, append}; non-trivial = shorter than 24 bytes, or a corrupted size prefix / body after >= 1 record",
+        "proptest: base = small valid volume | intermediate chunk (prefix + bzip2(message stream)) | up to 300 random bytes | crafted container (volume or bare records whose bzip2 streams are CRC-correct but carry chosen plaintexts: arbitrary bytes, fake 'BZ' magic at 4..6, a doubly wrapped record, a whole or cut message stream), then 0..4 operators {truncate, size-prefix corruption (0, 1, remainder-1/+0/+1, i32::MAX, i32::MIN, -1, size+-1), bit flip / byte set inside a compressed body, bit flip anywhere, append}; non-trivial = shorter than 24 bytes, or a corrupted size prefix / body after >= 1 record, or a crafted plaintext",
         ctx.tier.pick(150_000, 1_500_000),
         case_strategy,
         |c| {
             let b = apply(c);
             let damaged = c.ops.iter().any(|o| matches!(o, Op::Prefix { .. } | Op::BodyFlip { .. } | Op::BodySet { .. }));
-            CaseInfo::new(b.len() < 24 || damaged)
+            CaseInfo::new(b.len() < 24 || damaged || matches!(c.base, Base::Crafted { .. }))
                 .class(true, length_band(b.len()))
                 .class(c.ops.iter().any(|o| matches!(o, Op::Prefix { .. })), "size-prefix-corrupted")
                 .class(c.ops.iter().any(|o| matches!(o, Op::BodyFlip { .. } | Op::BodySet { .. })), "bzip2-body-corrupted")
                 .class(c.ops.iter().any(|o| matches!(o, Op::Truncate(_))), "truncated")
                 .class(matches!(c.base, Base::RecordChunk(_)), "chunk-base")
+                .class(matches!(&c.base, Base::Crafted { .. }) && c.ops.is_empty(), "crafted-plaintext-intact")
+                .class(matches!(&c.base, Base::Crafted { payloads, .. } if payloads.iter().any(|p| matches!(p, Payload::FakeMagic(..) | Payload::Nested(_)))) && c.ops.is_empty(), "plaintext-looks-compressed")
         },
         check_case,
     );
     rep.require_class("corrupted-containers", "size-prefix-corrupted", 100);
     rep.require_class("corrupted-containers", "bzip2-body-corrupted", 100);
+    rep.require_class("corrupted-containers", "plaintext-looks-compressed", 100);
 
     rep.prop(
         "random-bytes",
